@@ -215,7 +215,7 @@ def random_continuum(pa, rng, n_ann, max_units, unlabelled=0.0, grid=True, allow
 
 def random_dissim(pa, rng, c, allow_cat=True):
     """A built-in dissimilarity with random parameters, applicable to continuum c."""
-    de = rng.choice([0.5, 1.0, 2.0, 0.5, 1.0, 2.0, 0.85, 1.7, 1.45, 2.9, 0.3, 1.95, 1.15])     # dyadic and non-dyadic values
+    de = rng.choice([0.5, 1.0, 2.0, 0.5, 1.0, 2.0, 0.85, 1.7, 1.45, 2.9, 0.3, 1.95, 1.15, 0.1, 0.2, 0.4, 0.8, 0.05, 0.9, 1.3, 0.7])   # dyadic and non-dyadic
     alpha = rng.choice([0.0, 0.5, 1.0, 3.0, 0.7, 2.2])
     beta = rng.choice([0.0, 0.5, 1.0, 3.0, 1.3])
     labelled = all(u.annotation is not None for _, u in c) and len(c.categories) > 0
@@ -300,9 +300,14 @@ def l3_records(pa, rng, count, backends, modes, violations, shapes=SHAPES_SEARCH
             a, u = rng.choice([(a, u) for a, u in c])
             labs_in_use = [x.annotation for _, x in c]
             new = (Segment(u.segment.start + rng.choice([1, 2.5, 7]), u.segment.end + rng.choice([7, 9.5])), rng.choice(labs_in_use))
-            if not any(x.segment == new[0] and x.annotation == new[1] for x in c[a]):
-                c.remove(a, u)
-                c.add(a, new[0], new[1])
+            if rng.random() < 0.4 and len(c.annotators) < 5:
+                # ... or a new annotator without any unit is registered (every unitary alignment gets one more, empty, slot)
+                c.add_annotator(rng.choice(["aa_new", "zz_new", "an1b"]))
+                new = None
+            if new is None or not any(x.segment == new[0] and x.annotation == new[1] for x in c[a]):
+                if new is not None:
+                    c.remove(a, u)
+                    c.add(a, new[0], new[1])
                 try:
                     D2, de2 = ar.observe_table(pa, c, d, R_SCALE)
                 except Exception:
